@@ -612,10 +612,7 @@ func (g *Gen) loadPtr(p Val, typ types.Type, path []step, st *State) Val {
 	cn, cs := g.cellMapName(es)
 	hc := g.heapGet(st, cn, cs)
 	var t string
-	if es.K == KArray {
-		// pointer to array object: cell map holds whole arrays
-		t = fmt.Sprintf("(select %s (pobj.id %s))", hc, p.T)
-	} else {
+	{
 		en, esrt := g.elemMapName(es)
 		he := g.heapGet(st, en, esrt)
 		t = fmt.Sprintf("(ite (is-pelem %[1]s) (select (select %[2]s (pelem.arr %[1]s)) (pelem.idx %[1]s)) (select %[3]s (pobj.id %[1]s)))", p.T, he, hc)
@@ -739,7 +736,7 @@ func (g *Gen) storePtr(p Val, typ types.Type, path []step, nv Val, st *State) {
 	}
 	cn, cs := g.cellMapName(es)
 	hc := g.heapGet(st, cn, cs)
-	if es.K == KArray || strings.HasPrefix(p.T, "(pobj ") {
+	if strings.HasPrefix(p.T, "(pobj ") {
 		cur := Val{T: fmt.Sprintf("(select %s (pobj.id %s))", hc, p.T), S: es, G: typ}
 		r := g.update(cur, path, nv)
 		st.heap[cn] = g.defineRaw("h", cs, fmt.Sprintf("(store %s (pobj.id %s) %s)", hc, p.T, r.T))
